@@ -232,6 +232,26 @@ fn remove_dashes(s: String) -> String {
 fn amp_to_and(s: String) -> String {
     s.replace('&', "and")
 }
+/// Idempotent custom sanitizer that turns ASCII-only input into NON-ASCII cased letters
+/// (`e^` -> `ê`, `E^` -> `Ê`); commutes with the case sanitizers.
+fn hat_to_circumflex(s: String) -> String {
+    s.replace("e^", "\u{ea}").replace("E^", "\u{ca}")
+}
+fn gen_hat_string(rng: &mut Rng) -> String {
+    match rng.below(4) {
+        0 => {
+            let n = rng.range_usize(1, 8);
+            (0..n).map(|_| *rng.pick(&["e^", "E^", "e", "E", "^", "a", "B", " ", "x^"])).collect()
+        }
+        1 => {
+            let mut s = gen_string(rng, 4);
+            s.push_str(*rng.pick(&["e^", "E^", "Te^st", "CAFE^"]));
+            s
+        }
+        2 => (*rng.pick(&["CAFE^", "cafe^", " E^e^ ", "e^^", "Ee^"])).to_string(),
+        _ => gen_string(rng, 8),
+    }
+}
 fn gen_dash_string(rng: &mut Rng) -> String {
     match rng.below(4) {
         0 => "-".repeat(rng.range_usize(1, 4)),
